@@ -23,6 +23,7 @@ Decided (structural; nothing is expanded or run):
    variable at each occurrence, a variable argument as the variable itself.
  (round 4) macro front end only appends (or-pattern alternatives, arms and patterns keep source
    order); Conde::from_array one branch per goal.
+ (round 5, shared) the body of a committed arm: Conj builders and Conj::new keep every goal.
 """
 import macrolib
 import streams
@@ -378,6 +379,12 @@ def check_library(ctx, lib):
     C08.check_solve(ctx, lib, "C13.K3.matchu-commits", "Condu", "trunc")
     C08.check_builder(ctx, lib, "C13.K6.commit-builder", "Conda")
     C08.check_builder(ctx, lib, "C13.K6.commit-builder", "Condu")
+    # the body of a committed arm is the conjunction Conj::from_vec folds with Conj::new: every goal kept
+    import builders
+
+    builders.check_all(ctx, lib, "C13.K6.builders", only=("Conj", "InferredConj"))
+    streams.check_conj_new(ctx, lib, "C13.K6.conj-new", "crate::operator::conj::Conj::new", "Goal", "Conj")
+    streams.check_conj_new(ctx, lib, "C13.K6.conj-new", "crate::operator::conj::InferredConj::new", "G", "InferredConj")
 
 
 def check_conde_builder(ctx, lib, RB):
